@@ -85,7 +85,7 @@ theorem spec_writefd {cs : List Bytes} {p0 n0 : Bytes} {fid0 : Nat} (tmpdir : By
     (hg : GoodAt w cs p0 n0 fid0) :
     wp (fun w' => GoodAt w' cs p0 n0 fid0) (writefd tmpdir)
       (fun r w' => GoodAt w' cs p0 n0 fid0 ∧
-        ∀ fd, r = some fd → ∃ fid, w'.obj fd = .file fid 0 true ∧ w'.file fid = some ⟨[], [], 0⟩ ∧ fid ≠ fid0) w := by
+        ∀ fd, r = some fd → ∃ fid, w'.obj fd = .file fid 0 true ∧ w'.file fid = some ⟨[], []⟩ ∧ fid ≠ fid0) w := by
   unfold writefd
   split
   · exact ⟨hg, by intro _ h; cases h⟩
